@@ -117,7 +117,7 @@ fn vp_native_target_and_host_matrix() {
     let mut cases = 0u64;
     // the request may have been prepared for another URL than the one of this hop (redirects): the target form follows the hop
     for u in urls.iter().map(|s| s.as_str()) { for p in proxies { for orig in [None, Some("http://orig.test/o?first=1"), Some("https://orig.test:8443/o")] {
-        if orig.is_some() && (u.len() % 7 != 0) { continue; }   // a seventh of the shapes for the cross-scheme hops keeps the run short
+        if orig.is_some() && (u.len() % 7 != 0) && std::env::var("VP_TIER").as_deref() != Ok("thorough") { continue; }   // quick tier: a seventh of the shapes for the cross-scheme hops
         let mut req = crate::RequestBuilder::new(http::Method::GET, orig.unwrap_or(u)).prepare();
         let url = Url::parse(u).unwrap();
         let proxy = p.map(|s| Url::parse(s).unwrap());
@@ -203,10 +203,12 @@ fn vp_native_settings_sequences() {
         assert_eq!(vals("accept-encoding"), if m.compress { vec!["gzip, deflate".to_string()] } else { vec![] }, "Accept-Encoding of {}", ctx);
     };
     let mut cases = 0u64;
-    let mut idx = vec![0usize; 4];
+    // quick tier: sequences of up to 4 operations; thorough tier: up to 5
+    let maxlen: usize = if std::env::var("VP_TIER").as_deref() == Ok("thorough") { 5 } else { 4 };
+    let mut idx = vec![0usize; maxlen];
     'seqs: loop {
-        for len in 1..=4usize {
-            if len < 4 && idx[len..].iter().any(|&i| i != 0) { continue; }   // shorter sequences once
+        for len in 1..=maxlen {
+            if len < maxlen && idx[len..].iter().any(|&i| i != 0) { continue; }   // shorter sequences once
             let seq: Vec<Op> = idx[..len].iter().map(|&i| alphabet[i]).collect();
             let base = M { max_headers: 100, max_redirections: 5, follow: true, compress: true, headers: vec![] };
             let mut sessions: Vec<(crate::Session, M)> = vec![({ let mut s = crate::Session::new(); s.proxy_settings(crate::ProxySettings::builder().build()); s }, base.clone())];
@@ -239,7 +241,7 @@ fn vp_native_settings_sequences() {
         }
         // next index vector
         let mut k = 0;
-        loop { if k == 4 { break 'seqs; } idx[k] += 1; if idx[k] < alphabet.len() { break; } idx[k] = 0; k += 1; }
+        loop { if k == maxlen { break 'seqs; } idx[k] += 1; if idx[k] < alphabet.len() { break; } idx[k] = 0; k += 1; }
     }
     println!("VP-NATIVE settings_sequences cases={}", cases);
 }
